@@ -14,6 +14,7 @@ import (
 	"verif/harness/muxdrv"
 	"verif/harness/ocidrv"
 	"verif/harness/relaydrv"
+	"verif/harness/stubdrv"
 	"verif/harness/syncdrv"
 )
 
@@ -171,6 +172,18 @@ func main() {
 		if err := muxdrv.Generate(*out, *n, *seed, *big); err != nil {
 			fail(err)
 		}
+	case "life":
+		fs := flag.NewFlagSet(mod, flag.ExitOnError)
+		in := fs.String("in", "", "scenarios")
+		out := fs.String("out", "", "trace file")
+		fs.Int64("seed", 1, "unused")
+		skip := fs.Int("skip", 0, "scenarios to skip")
+		fs.Parse(args)
+		n, err := stubdrv.RunLife(*in, *out, *skip)
+		if err != nil {
+			fail(err)
+		}
+		fmt.Printf("{\"events\":%d}\n", n)
 	default:
 		fail(fmt.Errorf("unknown module %q", mod))
 	}
